@@ -7,21 +7,29 @@ PROP = {
              "up to length 3 (request) / 4 (response) with conflicting fixed header maps (exhaustive units), folded "
              "exactly as getSPOEReqActions/getSPOERespActions/runOnRequest fold them and decoded from the SPOE "
              "encoding; a case is non-trivial when >=2 non-no-op actions edit the same header name with different "
-             "values, or an early response is not in first position; distinct = distinct canonical JSON of the sequence"),
+             "values, or an early response is not in first position; distinct = distinct canonical JSON of the sequence. "
+             "Two end-to-end units drive the unexported fold loops themselves: TestFoldThroughGateway loads 1-4 generated flows per case (chains of 1-5 TransformAPICall header edits over a pool of 3 names x 4 values, "
+             "Filters that yield no-ops, an optional GenerateResponse; 0-4 response-side processors) into the real HandlingDataManager and sends SPOE on-request / on-response messages through routing.Handler; "
+             "TestPolicyFoldThroughDispatcher runs runner.DispatchOnRequest over generated endpoint and global remedy lists (API-key authentication = header edits, fixed_response = early response or no-op, enabled/disabled). "
+             "There a case is non-trivial when one header name is edited twice with different values, an answer follows other processors, or no-ops stand next to a modification"),
     "assumptions": [
         "header names are HTTP tokens and values visible ASCII without CR/LF (the line-based header encoding cannot carry them and no producer emits them)",
-        "the fold loop itself (getSPOEReqActions / getSPOERespActions / runOnRequest are unexported) is re-stated in the harness from the exported methods (EnsureRequestIsUpdated, ReqPrioritize, ReqToSpoeActions): a change confined to that loop, e.g. iterating in reverse, is not seen by this check",
+        "the action-level units re-state the fold loop (getSPOEReqActions / getSPOERespActions / runOnRequest are unexported) from the exported methods EnsureRequestIsUpdated, ReqPrioritize, ReqToSpoeActions; the loops themselves are exercised by the two end-to-end units with the action kinds real processors / remedies produce (ModifyRequest, EarlyResponse, ModifyResponse, NoOp)",
+        "policy mode: the order in which endpoint and global remedies run is not part of the statement - endpoint-then-global and global-then-endpoint (each list in declared order) are both accepted as 'the' order; one authentication remedy per scope (the API-key mechanism memoises its headers per endpoint)",
+        "GenerateResponse accepts only the parameters of its registry entry (status, body, Content-Type); the early response is compared on exactly those",
     ],
     "units": [
         {"pkg": "c07", "test": "TestRequestFoldRandom", "quick": 20000, "thorough": 200000, "shards": 8},
         {"pkg": "c07", "test": "TestResponseFoldRandom", "quick": 20000, "thorough": 200000, "shards": 8},
         {"pkg": "c07", "test": "TestRequestFoldExhaustive", "kind": "plain"},
         {"pkg": "c07", "test": "TestResponseFoldExhaustive", "kind": "plain"},
+        {"pkg": "c07", "test": "TestFoldThroughGateway", "quick": 400, "thorough": 6000, "shards": 1},
+        {"pkg": "c07", "test": "TestPolicyFoldThroughDispatcher", "quick": 5000, "thorough": 100000, "shards": 4},
     ],
-    "technique": "property-based testing (rapid) + bounded-exhaustive enumeration; oracle = independent fold model (first early response / union-later-wins) and decode round trip of the SPOE encoding",
+    "technique": "property-based testing (rapid) + bounded-exhaustive enumeration; oracle = independent fold model (first early response / union-later-wins) and decode round trip of the SPOE encoding, at action level and end to end through routing.Handler / runner.DispatchOnRequest",
     "level_text": ("generated action sequences are folded by the real prioritisation code and compared with an independent model of the statement; "
                    "the SPOE encoding is decoded back and compared with the resulting action. All kind sequences up to length 3/4 are enumerated, "
                    "longer ones and arbitrary header maps are sampled; this is search, not proof"),
-    "level_note": "header names/values restricted to what the line-based encoding can carry; fold order re-stated from routing/messages_handler.go and runner/plugin_runner.go",
+    "level_note": "header names/values restricted to what the line-based encoding can carry; the end-to-end units need the gateway fixture (scratch configuration directories, HAProxy admin calls answered in-process)",
     "design_ref": "DESIGN.md section 2, C07",
 }
